@@ -27,6 +27,10 @@ BAD = {
     "unbalanced-brackets": b"x = [1, 2, (3, 4}\n]]]))\n",
     "very-long-line": b"x = [" + b"3975, " * 2500 + b"1]\n",
     "deeply-nested-expression": b"x = " + b"(" * 400 + b"1" + b")" * 400 + b"\n",
+    "long-operator-chain": b"def f(a):\n    return " + b" + ".join([b"a"] * 2000) + b"\n\n\nx = " + b" + ".join([b"1"] * 2000) + b"\n",
+    # CPython's own parser gives up (RecursionError from ast.parse) a little below 3000 operands
+    "operator-chain-beyond-cpython-parser-limit": b"x = " + b" + ".join([b"1"] * 6000) + b"\n",
+    "long-call-chain": b"x = q" + b".m()" * 1200 + b"\n",
     "deep-blocks": "".join("    " * i + "if a%d:\n" % i for i in range(60)).encode() + b"    " * 60 + b"pass\n",
     "only-comments": b"# a\n# b\n// c\n",
     "lone-surrogate-escape": "s = '\\ud800'\n".encode(),
@@ -41,6 +45,7 @@ BAD = {
     "odd-rust-literals": b"fn f() -> u64 {\n    let a = 0o9;\n    let b = 1_u99;\n    let c = 0xg;\n    let d = 1e;\n    a + b + c + d as u64 + 99999999999999999999999999\n}\n",
 }
 EXTS = (".py", ".ts", ".js", ".rs", ".txt", "")
+HEAVY = ("long-operator-chain", "long-call-chain", "operator-chain-beyond-cpython-parser-limit")
 _P = {}
 _TIER = {"t": "quick"}
 
@@ -88,8 +93,9 @@ def h_bad_content(ctx):
     d = _proj()
     base = _baseline()
     kind = ctx.pick("content", tuple(BAD))
-    ext = ctx.pick("extension", EXTS)
-    how = ctx.pick("run", ("file-list", "directory", "cli"))
+    heavy = kind in HEAVY and _TIER["t"] == "quick"      # seconds per rule and file: one run kind, one extension per language
+    ext = ctx.pick("extension", (".py", ".ts", ".rs") if heavy else EXTS)
+    how = ctx.pick("run", ("file-list",) if heavy else ("file-list", "directory", "cli"))
     f = d / "src" / ("zz_offending" + ext)
     f.write_bytes(BAD[kind])
     tap = _Tap()
